@@ -68,3 +68,28 @@ Fixpoint run_pesf_loop (deep : bool) (f : pes_filter) (idx : N) (pkts : list (li
   end.
 Definition run_pesf (flags : N) (pkts : list (list N)) : option (list N) :=
   opt_of_res (run_pesf_loop (N.testbit flags 0) pes_filter_new 0 pkts).
+
+(* ---- C19 suites: what the model predicts for the steady-state part of a two-phase stream ---- *)
+Definition is_slice (e : event) : bool :=
+  match e with
+  | EvEs _ _ (EsContinuePacket _ _) _ => true
+  | EvEs _ _ (EsBeginPacket _ _) (k :: _) => negb (k =? 0)
+  | _ => false
+  end.
+Definition is_construct (e : event) : bool := match e with EvConstruct _ _ => true | _ => false end.
+Fixpoint steady_part (limit : N) (evs : list event) : list event :=
+  match evs with
+  | [] => []
+  | EvPacket s idx o :: r => if limit <=? idx then evs else steady_part limit r
+  | _ :: r => steady_part limit r
+  end.
+(* [allocations; slices outside the pushed buffer; payload slices delivered; requests made] during the steady part *)
+Definition run_alloc (warm steady : list N) : option (list N) :=
+  match run_demux (std_policy []) (scripts_of []) false false [warm; steady] with
+  | Ok (_, _, evs) =>
+      let st := steady_part (n2 (length warm)) evs in
+      Some [0; 0; n2 (length (filter is_slice st)); n2 (length (filter is_construct st))]
+  | Panic _ => None
+  end.
+(* bounded retained memory under hostile input: the model's claim is just "yes" (see C19_buffer_bounded) *)
+Definition run_mem (_ : list N) : option (list N) := Some [1].
